@@ -198,6 +198,27 @@ func runVerify(w *World, opt verifyOpts) int {
 			}
 		}
 	}
+	// an atcall clause whose anchoring call no longer occurs would generate no obligation at all: report it
+	for _, k := range sortedKeys(P.Contracts) {
+		fc := P.Contracts[k]
+		if fc.Lib || fc.Behaviour {
+			continue
+		}
+		verified := false
+		for _, n := range fnames {
+			if n == k {
+				verified = true
+			}
+		}
+		if !verified && !(fc.Inline && fc.Used) {
+			continue
+		}
+		for _, ac := range fc.AtCalls {
+			if !ac.Matched && (opt.all || len(ac.Tags) == 0 || hasTag(ac.Tags, opt.prop)) {
+				undecidedExtra = append(undecidedExtra, shortTypeName(k)+": atcall clause anchored to "+ac.Kind+" matched no call ("+ac.Where()+": "+ac.Text+")")
+			}
+		}
+	}
 	globalProblems := checkGlobalsConstant(P)
 	// zero-annotation sweep (safety obligations of functions without contract)
 	if opt.sweep {
